@@ -856,7 +856,7 @@ func scenarios1(prop string) []d1x.Scenario {
 				New: func() vsched.Harness { return &pairH{ops: [2]string{a, b}} }}
 		}
 		return []d1x.Scenario{
-			mkp("ingestc", "setc", 1, 2, 8),
+			mkp("ingestc", "setc", 0, 2, 8),
 			mkp("ingestc", "setc>get", 0, 1, 1),
 			mkp("ingestc", "batch", 0, 1, 1),
 			mkp("ingest", "setc", 0, 1, 1),
